@@ -33,6 +33,12 @@ def run(c, chk):
     # R13.1
     c06.include_position(c, P(chk, {'R6.5': 'R13.1'}), lex)
 
+    # R13.11: an include is resolved through the search path every section borrows from the root: nothing that happens to a
+    # section between two includes (replaced by a repeated title, removed) may release that list
+    from . import c07 as _c07
+    chk.rule('R13.11', 'replacing or removing a section never releases the search path it only borrows from the root (the next include would walk a freed list)')
+    _c07.searchpath_rule(c, P(chk, {'R7.3': 'R13.11'}), sym.Explorer(c.modules, max_visits=2, mod_sets=c.mod_sets, max_paths=200000))
+
     # R13.10: a refused include costs nothing lasting: file closed, name released, include stack as deep as before
     chk.rule('R13.10', 'every failing exit of the include function has closed the file, released the name and left the include stack as deep as it found it (no lasting loss of include capacity)')
     c08.refused_include_leaves_nothing(c, P(chk, {'R8.7': 'R13.10'}))
